@@ -421,3 +421,20 @@ def assigns_to(body, local, blocks=None):
         if blocks is None or d[0] in blocks:
             out.append((d[0], d[3], d[2]))
     return out
+
+
+def deepstrip(o):
+    """Remove every ref/deref node at all levels (places behind references compare equal to the places themselves)."""
+    if not isinstance(o, tuple) or not o:
+        return o
+    if o[0] in ("ref", "deref"):
+        return deepstrip(o[1])
+    out = []
+    for x in o:
+        if isinstance(x, tuple) and x and isinstance(x[0], str):
+            out.append(deepstrip(x))
+        elif isinstance(x, tuple):
+            out.append(tuple(deepstrip(y) if isinstance(y, tuple) else y for y in x))
+        else:
+            out.append(x)
+    return tuple(out)
